@@ -244,3 +244,9 @@ func (self *Pipestance) VerifStorageBarrier() {
 		}
 	}
 }
+
+// VerifRemove removes a metadata file through mrp's own object (as the job
+// managers do with QueuedLocally once the process has started).
+func (self *Metadata) VerifRemove(name MetadataFileName) error {
+	return self.remove(name)
+}
